@@ -281,8 +281,12 @@ def check(ctx):
             for b, t, fr in m.iter_calls():
                 if fr and lib.tail(mir.fn_name(fr), 2) in ("Query::get", "Query::get_mut") and len(t["args"]) > 1:
                     os_ = origins(m, t["args"][1])
-                    src_ok = all(o[0] == "call" and (prog.resolve_local(op_fn(m.blocks[o[1]]["term"]["func"])) is not None and
-                                 lib.impl_self_path(prog.resolve_local(op_fn(m.blocks[o[1]]["term"]["func"]))) in trackers) for o in os_) and bool(os_)
+                    src_ok = bool(os_)
+                    for o in os_:
+                        acc_b = prog.resolve_local(op_fn(m.blocks[o[1]]["term"]["func"])) if o[0] == "call" else None
+                        # the key is the Entity a tracker accessor returns (not e.g. the system id dereferenced)
+                        if acc_b is None or lib.impl_self_path(acc_b) not in trackers or not acc_b.local_ty(0).endswith("entity::Entity"):
+                            src_ok = False
                     ctx.check(src_ok, "C03.c", "%s::%s:query-keyed-by-tracker-entity" % (rname, m.raw.get("name")), m.loc(b),
                               "payload looked up at the entity the tracker reports",
                               "reader looks its payload up at an entity that does not come from the tracker: %s" % lib.origin_str(os_))
